@@ -240,8 +240,16 @@ class Gen:
         p = fn.path
         text = body
         # function-specific rewrites first (on the expanded text; each needs a justification)
-        for old, new, why in fn.rewrites:
-            if text.count(old) >= 1:
+        for rw in fn.rewrites:
+            old, new, why = rw[0], rw[1], rw[2]
+            if len(rw) > 3 and rw[3] in ('re', 're?'):
+                # pattern form: `old` is a regular expression, `new` may use back-references; 're?' may match nowhere
+                if not re.search(old, text):
+                    if rw[3] == 're?':
+                        continue
+                    raise AnchorError('%s: rewrite pattern not found: %r' % (p, old))
+                text = re.sub(old, new, text)
+            elif text.count(old) >= 1:
                 text = text.replace(old, new)
             else:
                 # tolerate the pretty-printer's line breaks: whitespace runs match any whitespace
